@@ -437,7 +437,7 @@ func C09(tier string) {
 	nw := ev.Workers()
 	work := filepath.Join(ev.Root(), ".work", fmt.Sprintf("c09-%d", os.Getpid()))
 	_ = os.MkdirAll(work, 0o755)
-	defer os.RemoveAll(work)
+	ev.AtExit(func() { os.RemoveAll(work) })
 	var mu sync.Mutex
 	var evals int64
 	report := func(res c09Result) {
